@@ -97,9 +97,11 @@ func fnExec(ctx *cmdContext, args map[string]any) (output respValue, err error) 
 		return
 	}
 
-	// a queued FLUSHALL locks the other data stores as well; see fnFlushAll
+	// a queued FLUSHALL locks the other data stores as well (see fnFlushAll), and so do the
+	// commands that follow a queued SELECT: they run on another data store while this one stays
+	// locked. Whoever holds more than one data store takes the global lock first.
 	for _, cc := range *ctx.cs.cmdQueue {
-		if cc.cmdToken == "flushall" {
+		if cc.cmdToken == "flushall" || cc.cmdToken == "select" {
 			multiDataStoreLock.Lock()
 			defer multiDataStoreLock.Unlock()
 			break
